@@ -196,6 +196,18 @@ def run(ctx):
                     and np.array_equal(np.asarray(s["P"].value), np.asarray(s["P"].value))):
                 ctx.violation("MAP_sample-modifies-its-input", "the caller's table changed under MAP_sample (ln_prior / "
                               "ln_likelihood columns differ from what was passed in)", dict(index=j, N=N))
+            if ok and N > 1:
+                # the same object with new log-probabilities (re-evaluated under another model, say): the answer follows the table
+                ll_new = np.round(rng.normal(size=N) * 3, 6)
+                s["ln_likelihood"] = ll_new
+                post_new = lp + ll_new
+                _, idx3 = sa.MAP_sample(s, return_index=True)
+                ctx.evaluations += 1
+                if post_new[int(idx3)] != post_new.max():
+                    ctx.violation("MAP_sample-wrong", "after ln_likelihood was replaced on the same table MAP_sample still returns row "
+                                  "%d (ln_post %r), the maximum %r is at row %d" % (int(idx3), float(post_new[int(idx3)]),
+                                                                                 float(post_new.max()), int(np.argmax(post_new))),
+                                  dict(index=j, N=N, second_call_after_column_replaced=True))
             if not ok:
                 ctx.violation("MAP_sample-wrong", "MAP_sample returned row %r whose ln_post=%r, max is %r"
                               % (int(idx), float(post[int(idx)]), float(post.max())),
